@@ -256,7 +256,17 @@ def raster(draw, accessor=False):
             inside = lambda r, c: (r0 <= r and c0 <= c <= X - 2) or (r == r0 - 1 and c == X - 1)  # noqa: E731
             zones = [z if inside(i // X, i % X) else znd for i, z in enumerate(zones)]
     nd = draw(st.sampled_from([-9999, -32768, 0] if kind != "floats" else [-9999, -32768]))
-    if accessor and dt in ("float64", "int32") and draw(st.booleans()):
+    force32 = accessor and draw(st.integers(0, 3)) == 0
+    if force32:
+        # on purpose: a wide raster whose nodata value float32 cannot represent, nodata cells present, float32 output
+        dt = draw(st.sampled_from(["float64", "int32"]))
+        if dt == "int32" and kind == "floats":
+            kind = "ints"
+            vals = [int(v) for v in vals]
+        if share == 0:
+            ok = [draw(st.integers(0, 99)) >= 30 for _ in range(n)]
+            share = 30
+    if accessor and dt in ("float64", "int32") and (force32 or draw(st.booleans())):
         # nodata values that a narrower float type cannot represent exactly
         nd = draw(st.sampled_from([-9999.9, 1e20, -3.4e38] if dt == "float64" else [2147483647, -2147483647, 16777217]))
     if nd == 0:
@@ -282,7 +292,7 @@ def raster(draw, accessor=False):
         ok = [True] * n
         kind, share = "offdomain_nodata", 0
     case = {"shape": [T, Y, X], "pixels": vals, "ok": ok, "zones": zones, "nz": max(nz, 1), "znodata": znd, "nodata": nd, "dtype": dt,
-            "out_dtype": draw(st.sampled_from(["float32", "float64"])), "kind": kind, "share": share, "zpat": zpat}
+            "out_dtype": "float32" if force32 else draw(st.sampled_from(["float32", "float64"])), "kind": kind, "share": share, "zpat": zpat}
     if znd == 255:
         case["nz"] = nz  # 255 never indexes a zone because it is skipped
     if accessor:
